@@ -10,6 +10,7 @@ pub mod c20;
 pub mod c21;
 pub mod c22;
 pub mod c23;
+pub mod c24;
 pub mod c25;
 pub mod c11;
 pub mod c14;
@@ -34,6 +35,7 @@ pub fn dispatch(ctx: &Ctx) -> i32 {
         "C21" => c21::run(ctx, &mut rec),
         "C22" => c22::run(ctx, &mut rec),
         "C23" => c23::run(ctx, &mut rec),
+        "C24" => c24::run(ctx, &mut rec),
         "C25" => c25::run(ctx, &mut rec),
         "C11" => c11::run(ctx, &mut rec),
         "C14" => c14::run(ctx, &mut rec),
